@@ -81,6 +81,15 @@ def getSpreadValues(value, pos):
     )
 
 
+def getIndex(idx, pos):
+    try:
+        return int(idx.value)
+    except (ValueError, TypeError, OverflowError, AttributeError):
+        raise CklRuntimeError(
+            ValueString("ERROR"), f"Invalid index {idx.type()}", pos
+        )
+
+
 def getFuncallString(fn, args):
     return f"{fn.name}({args.toStringAbbrev()})"
 
@@ -519,7 +528,7 @@ class NodeDeref:
                     self.pos,
                 )
             s = value.value
-            i = int(idx.value)
+            i = getIndex(idx, self.pos)
             if i < 0:
                 i = i + len(s)
             if i < 0 or i >= len(s):
@@ -536,7 +545,7 @@ class NodeDeref:
                     self.pos,
                 )
             lst = value.value
-            i = int(idx.value)
+            i = getIndex(idx, self.pos)
             if i < 0:
                 i = i + len(lst)
             if i < 0 or i >= len(lst):
@@ -602,7 +611,7 @@ class NodeDerefAssign:
 
         if container.isString():
             s = container.value
-            i = int(idx.value)
+            i = getIndex(idx, self.pos)
             if i < 0:
                 i = i + len(s)
             if i < 0 or i >= len(s):
@@ -614,7 +623,7 @@ class NodeDerefAssign:
 
         if container.isList():
             lst = container.value
-            i = int(idx.value)
+            i = getIndex(idx, self.pos)
             if i < 0:
                 i = i + len(lst)
             if i < 0 or i >= len(lst):
@@ -731,8 +740,8 @@ class NodeDerefSlice:
 
         if value.isString():
             s = value.value
-            start = int(start.value)
-            end = int(end.value) if end else len(s)
+            start = getIndex(start, self.pos)
+            end = getIndex(end, self.pos) if end else len(s)
             if start < 0:
                 start += len(s)
             if end < 0:
@@ -745,8 +754,8 @@ class NodeDerefSlice:
 
         if value.isList():
             lst = value.value
-            start = int(start.value)
-            end = int(end.value) if end else len(lst)
+            start = getIndex(start, self.pos)
+            end = getIndex(end, self.pos) if end else len(lst)
             if start < 0:
                 start += len(lst)
             if end < 0:
